@@ -424,4 +424,60 @@ theorem setCrash_isSome (s : St α) (k : String) : (s.setCrash k).crash.isSome =
   · rename_i h; rw [h]; rfl
   · rfl
 
+/-! ## the round number: only `newRound` changes it -/
+theorem round_logAct (s : St α) (tag verb : String) (subj : List Nat) : (s.logAct A tag verb subj).round = s.round := by
+  unfold St.logAct; simp only; split <;> rfl
+theorem round_newRound (s : St α) : (s.newRound A).round = s.round + 1 := by
+  unfold St.newRound; rw [round_logAct]
+theorem round_elect (s : St α) (cid : Nat) (verb : String) (p : Bool) : (s.elect A cid verb p).round = s.round := by
+  unfold St.elect; rw [round_logAct]; rfl
+theorem round_defeat (s : St α) (cid : Nat) (verb : String) : (s.defeat A cid verb).round = s.round := by
+  unfold St.defeat; rw [round_logAct]; rfl
+theorem round_unpendLog (s : St α) (cid : Nat) (verb : String) : (s.unpendLog A cid verb).round = s.round := by
+  unfold St.unpendLog; rw [round_logAct]; rfl
+theorem round_setCrash (s : St α) (k : String) : (s.setCrash k).round = s.round := by
+  unfold St.setCrash; split <;> rfl
+theorem round_foldl {β : Type} (f : St α → β → St α) (hf : ∀ s x, (f s x).round = s.round) (l : List β) (s : St α) :
+    (l.foldl f s).round = s.round := by
+  induction l generalizing s with
+  | nil => rfl
+  | cons x xs ih => simp only [List.foldl_cons]; rw [ih, hf]
+theorem transferBallot_round (s : St α) (b : Ballot α) : (transferBallot A s b).1.round = s.round := by
+  unfold transferBallot; split <;> rfl
+theorem tstep_round (cids : List Nat) (rew : α → α) (acc : St α × List (Ballot α)) (b : Ballot α) :
+    (tstep A cids rew acc b).1.round = acc.1.round := by
+  unfold tstep; split
+  · split
+    · exact transferBallot_round A _ _
+    · rfl
+  · rfl
+theorem foldl_tstep_round (cids : List Nat) (rew : α → α) (bs : List (Ballot α)) (acc : St α × List (Ballot α)) :
+    (bs.foldl (tstep A cids rew) acc).1.round = acc.1.round := by
+  induction bs generalizing acc with
+  | nil => rfl
+  | cons b bs ih => simp only [List.foldl_cons]; rw [ih, tstep_round]
+theorem round_transferAll (s : St α) (cids : List Nat) (rew : α → α) : (transferAll A s cids rew).round = s.round := by
+  have := foldl_tstep_round A cids rew s.ballots (s, []); simpa [transferAll] using this
+theorem round_transferSurplus (s : St α) (hc : Cand α) (rew : α → α → α → α) (verb : String) :
+    (transferSurplus A s hc rew verb).round = s.round := by
+  unfold transferSurplus; dsimp only; rw [round_logAct]
+  show (transferAll A s _ _).round = _
+  exact round_transferAll A s _ _
+theorem round_transferDefeated (s : St α) (cids : List Nat) (verb : String) :
+    (transferDefeated A s cids verb).round = s.round := by
+  unfold transferDefeated; dsimp only; rw [round_logAct]
+  rw [round_foldl (fun (acc : St α) (c : Nat) => acc.setVote c A.zero) (fun _ _ => rfl)]
+  exact round_transferAll A s _ _
+theorem round_breakTie (s : St α) (tied : List (Cand α)) (verb : String) : (breakTie A s tied verb).1.round = s.round := by
+  unfold breakTie
+  split
+  · exact round_setCrash s _
+  · rfl
+  · exact round_logAct A _ _ _ _
+theorem round_electWinners (hasQ : St α → Cand α → Bool) (pend : St α → Cand α → Bool)
+    (verb : St α → Cand α → String) (s : St α) : (electWinners A hasQ pend verb s).round = s.round := by
+  unfold electWinners
+  exact round_foldl (fun (acc : St α) (c : Cand α) => acc.elect A c.cid (verb s c) (pend s c))
+    (fun t c => round_elect A t c.cid _ _) _ _
+
 end Droop
